@@ -87,13 +87,15 @@ class syntax_error(SourceFeedback):
                                       [report.submission.instructor_file],
                                       line_offsets, [filename], lines, files)
         traceback_stack = traceback.build_traceback()
-        traceback_message = traceback.format_traceback(traceback_stack, report.format)
+        traceback_message = traceback.format_traceback(traceback_stack, report.format) or ""
         traceback_preamble = f"The traceback was:\n" if traceback_message else ""
         #if not enhance:
         #    self.message_template = "{traceback_message}\n{exception_message}"
         line_offset = line_offsets.get(filename, 0)
         exception_message = self.make_exception_message(exception)
-        fields = {'lineno': line + line_offset,
+        # CPython reports no line for some errors (e.g., a NUL byte in the source)
+        lineno = line + line_offset if line is not None else None
+        fields = {'lineno': lineno,
                   'filename': filename,
                   'offset': col_offset,
                   'exception': exception,
@@ -104,7 +106,7 @@ class syntax_error(SourceFeedback):
                   'traceback_stack': traceback_stack,
                   'traceback_preamble': traceback_preamble,
                   'traceback_message': traceback_message}
-        location = Location(line=line + line_offset, col=col_offset, filename=filename)
+        location = Location(line=lineno, col=col_offset, filename=filename)
         fields['suggestion_message'] = self.constant_fields['suggestion'].format(**wrap_fields(report.format, fields))
         super().__init__(fields=fields, location=location, **kwargs)
 
